@@ -151,6 +151,13 @@ struct Array {
     }
 
     void operator+=(Type_T &&item) {
+#ifdef QENTEM_VERIF
+        // Verification hook (off by default): exact-fit growth, so that [Size, Capacity) is empty and a
+        // sanitizer's redzone borders the logical end of the array.
+        if (Size() == Capacity()) {
+            resize(Capacity() + SizeT{1});
+        }
+#endif
         if (Size() == Capacity()) {
             resize((Capacity() | (Capacity() == 0)) * SizeT{2});
         }
@@ -160,6 +167,13 @@ struct Array {
     }
 
     inline void operator+=(const Type_T &item) {
+#ifdef QENTEM_VERIF
+        // Verification hook (off by default): exact-fit growth, so that [Size, Capacity) is empty and a
+        // sanitizer's redzone borders the logical end of the array.
+        if (Size() == Capacity()) {
+            resize(Capacity() + SizeT{1});
+        }
+#endif
         if (Size() == Capacity()) {
             resize((Capacity() | (Capacity() == 0)) * SizeT{2});
         }
